@@ -4,6 +4,7 @@
 package vclient
 
 import (
+	"net/http"
 	"bufio"
 	"crypto/md5"
 	"encoding/binary"
@@ -379,4 +380,15 @@ func (r *RTSP) Do(method, url string, hdr map[string]string, body string, timeou
 			return it, extra, nil
 		}
 	}
+}
+
+// SpoofTransport adds, to every HTTP request, the header in which the server itself passes the authenticated user's
+// name from one interceptor to the next - naming the administrator.  A client can send any header it likes; who the
+// caller is must come from the token alone.
+type SpoofTransport struct{ Name string }
+
+func (s SpoofTransport) RoundTrip(r *http.Request) (*http.Response, error) {
+	r2 := r.Clone(r.Context())
+	r2.Header.Set("user_name_in_token", s.Name)
+	return http.DefaultTransport.RoundTrip(r2)
 }
